@@ -1,2 +1,3 @@
 import Oracle.C06pc
 import Oracle.Main
+import Oracle.C04Build
